@@ -149,5 +149,5 @@ def run(ctx):
     sub = type(ctx)(ctx.prop, ctx.facts, ctx.tier, ctx.config)
     c05.run(sub)
     for o in sub.obligations:
-        if o["rule"] == "R05.2":
+        if o["rule"] == "R05.2" and ("release-iff-removed" in o["key"] or ("returns-removed-id" in o["key"] and any(h.name and any(t.get("rpath") == o["key"].split("|")[1] for b, t in h.calls()) for h in handlers))):
             ctx._add(o["status"], "R04.5", o["key"].split("|", 1)[1], o["desc"], o["where"], o["detail"])
